@@ -81,7 +81,8 @@ def meta_facts(text):
         maxint = int(float(kv["imMaxInt"])) if "imMaxInt" in kv else 512
     else:
         maxint = int(float(kv.get("imMaxInt", 32768)))
-    return {"nc": int(float(kv["nSavedChans"])), "fs": fs, "gen": gen, "enc": enc, "sites": sites,
+    return {"nc": int(float(kv["nSavedChans"])), "fs": fs, "gen": gen,
+            "nidq": kv.get("typeThis") == "nidq" and "snsApLfSy" not in kv, "enc": enc, "sites": sites,
             "split": split, "maxint": maxint}
 
 
@@ -106,7 +107,7 @@ def patch_meta_text(text, ns, nc, fs):
 NP1_GAINS = [50, 125, 250, 500, 1000, 1500, 2000, 3000]
 
 
-def synth_meta(rng, kind, nch, nsync=1, sites=None, gains=None, layout=None):
+def synth_meta(rng, kind, nch, nsync=1, sites=None, gains=None, layout=None, era3a=None):
     """Small synthetic SpikeGLX meta text: permuted site map, non-uniform IMRO gains.
     kind in 3A, 3B2, 3B2geom, NP2.1, NP2.4, NPultra, lf, nidq.  Returns (text, fs, nc)."""
     L = []
@@ -122,6 +123,8 @@ def synth_meta(rng, kind, nch, nsync=1, sites=None, gains=None, layout=None):
               "niMAGain=%d" % mag, "niMNGain=%d" % mng,
               "niSampRate=%r" % fs, "snsMnMaXaDw=%d,%d,%d,%d" % (mn, ma, xa, dw),
               "snsSaveChanSubset=all", "typeThis=nidq", "~snsShankMap=(1,2,0)"]
+        if era3a if era3a is not None else rng.random() < 0.25:
+            L.insert(0, "typeEnabled=imec,nidq")      # nidq file of the 3A era: the meta carries a probe version
         return "\n".join(L) + "\n", fs, mn + ma + xa + dw, exp
     fs = rng.choice([30000.0, 30000.390639481, 29999.757983, 2500.0])
     lf = kind == "lf"
@@ -886,7 +889,7 @@ def build_recordings(ctx, tdir):
     grid = [(mn, ma, xa, dw) for mn in (0, 2, 3) for ma in (0, 2, 3) for xa in (0, 1, 2, 8) for dw in (0, 1, 2)
             if mn + ma + xa + dw > 0]
     for k, lay in enumerate(grid):
-        text, fs, nc, exp = synth_meta(rng, "nidq", 0, layout=lay)
+        text, fs, nc, exp = synth_meta(rng, "nidq", 0, layout=lay, era3a=(k % 5 == 2))
         cb = (k % 3 == 0)
         recs.append(dict(name="g_%d" % k, text=text, fs=fs, ns=rng.choice([2, 3, 5]), nc=nc, cbin=cb, chunk=2,
                          label="nidqgrid:%d,%d,%d,%d" % lay, big=False, exp_s2v=exp, ncases=2))
@@ -940,6 +943,9 @@ def build_recordings(ctx, tdir):
              dict(meta_file_arg=True, ch_file_arg=True, cbin=True), dict(ch_file_arg=True, cbin=True),
              dict(never_open=True, cbin=False), dict(never_open=True, cbin=True),
              dict(meta_file_arg=True, meta_file_str=True, cbin=False),
+             dict(meta_file_arg=True, meta_file_str=True, ch_file_arg=True, cbin=True),
+             dict(meta_file_arg=True, meta_file_str=True, access="symlink_dir", cbin=True),
+             dict(meta_file_arg=True, access="relative", cbin=False),
              dict(access="via_meta", meta_ns_delta=-3, ignore_warnings=True, cbin=False)]
     for j, v in enumerate(extra):
         kind = ["NP2.4", "3B2", "nidq", "NPultra", "lf", "NP2.1"][j % 6]
@@ -1013,7 +1019,8 @@ def order_query(rec, sort):
     """Input of the Coq model's api 3 (raw_channel_order through C08's geometry model), from
     the meta text alone: probe generation, encoding, parsed site table, NP2.4_shank key."""
     mf = meta_facts(rec.meta_file.read_text())
-    return [3, mf["gen"], mf["enc"], 1 if sort else 0, mf["split"], rec.nc, len(mf["sites"])] + \
+    return [6, 1 if mf["nidq"] else 0, mf["gen"], mf["enc"], 1 if sort else 0, mf["split"], rec.nc,
+            len(mf["sites"])] + \
         [v for st in mf["sites"] for v in st]
 
 
